@@ -12,10 +12,44 @@ from . import C04
 TAG = 'C05'
 
 
+def twin_tables(seed: int):
+    """Two boards dealt by decoding the SAME encodings (PBN text, binary vectors, JSON lists) - two tables of a duplicate event, a
+    replay - and played alternately: each table must conserve its own 52 cards, whatever the other does."""
+    from bridge_env import Hands, Player
+    from bridge_env.data_handler.json_handler.parser import hands_parser
+    from bridge_env.data_handler.json_handler.writer import convert_deal
+    from ..core import Counter
+    from . import play as PX, scen
+    from .. import adapt
+    c = Counter()
+    for k, enc in enumerate(('pbn', 'binary', 'json', 'pbn')):
+        deal = scen.deal_from_seed(seed * 13 + k)
+        src = adapt.hands_obj(deal)
+        code = {'pbn': src.to_pbn(Player.W), 'binary': src.to_binary(), 'json': convert_deal(src)}[enc]
+        dec = {'pbn': Hands.convert_pbn, 'binary': Hands.convert_binary, 'json': hands_parser}[enc]
+        rigs = []
+        for t in range(2):
+            r = PX.Rig(f'{2 + k}{PX.DENOMS[k]}', 'NESW'[(k + t) % 4], deal, c, observers=False, playable=False, do_faults=False)
+            r.full = PX.PlayingPhaseWithHands(r.contract, dec(code))         # this table's hands come from the decoder
+            rigs.append(r)
+        try:
+            for step in range(52):
+                for r in rigs:
+                    seat = r.ref.active
+                    r.play(PX.default_card(r.hands, seat, r.ref.led()))
+                    r.check()
+            c.inc('twin_tables')
+        except PX.Broken:
+            pass
+    return c
+
+
 def run(tier, seed, workers):
     tot = C04.run_play(TAG, tier, seed, workers)
+    tot.merge(twin_tables(seed))
     viol = [v for v in tot.violations if v.key.startswith(TAG + ':')]
     cov = C04.coverage(tot, tier, TAG)
+    cov['twin_tables_from_one_encoding'] = tot.get('twin_tables')
     cov['rule'] = ('L3 play-outs only (see C04 for their definition) with fault injection on the table engine and the four observers: out-of-turn plays of held cards '
                    '(lowest and highest) by each of the three other seats, plays by the seat on turn of a card held by each other seat, of the last and of the first card '
                    'already played, and any play after the 52nd card; every fault must raise and leave every attribute unchanged (snapshot comparison); after every accepted play '
